@@ -58,15 +58,20 @@ class G:
         return a + self._b() % (b - a + 1)
 
 
-def build(data):
-    """-> case dict: {"levels":[level...], "dyn":...}; level = {"defs":{name:items}, "blocks_decl":[names], "attrs":{..},
-    "body":items, "page":bool, "inherit": "static"|"dyn"|"dynnone"|None}"""
+DIRS = ["", "a/", "b/"]
+
+
+def build(data, pfx="", maxn=5, allow_include=True):
+    """-> case dict: {"levels":[level...], "pfx":..}; level = {"defs":{name:items}, "attrs":{..}, "body":items, "page":bool,
+    "dir": one of DIRS, "inherit": "static"|"rel"|"dyn"|"dynrel"|"dynnone"|None}; an item ["include", subcase, m] renders
+    another, independent chain through <%include>"""
     g = G(data)
-    n = g.int(1, 5)
+    n = g.int(1, maxn)
     # declare members per level first so that calls can be generated against the model
     levels = []
     for i in range(n):
-        lv = {"defs": {}, "attrs": {}, "body": [], "blocks": {}, "page": g.chance(40), "inherit": None}
+        lv = {"defs": {}, "attrs": {}, "body": [], "blocks": {}, "page": g.chance(40), "inherit": None,
+              "dir": g.pick(["", "", "a/", "b/"]) if i else ""}
         for d in DEFS:
             if g.chance(45):
                 lv["defs"][d] = None
@@ -75,7 +80,10 @@ def build(data):
                 lv["attrs"][a] = "L%d.%s" % (i, a) if g.chance(75) else g.pick([None, "", 0, False])
         levels.append(lv)
     for i in range(n - 1):
-        levels[i]["inherit"] = g.pick(["static", "static", "dyn", "static"])
+        levels[i]["inherit"] = g.pick(["static", "rel", "dyn", "static", "rel", "dynrel"])
+    # a parent lives in the directory of its child or below it (string lookups do not resolve ".." segments)
+    for i in range(1, n):
+        levels[i]["dir"] = levels[i - 1]["dir"] + levels[i]["dir"]
     if n >= 2 and g.chance(8):
         # a dynamic target that evaluates to None cuts the chain at that level
         cut = g.int(0, n - 2)
@@ -86,7 +94,7 @@ def build(data):
     for i in range(n):
         avail = [b for b in BLOCKS if g.chance(45)]
         levels[i]["_place"] = avail
-    case = {"levels": levels}
+    case = {"levels": levels, "pfx": pfx}
     decl = lambda i, name: name in levels[i]["defs"] or name in levels[i]["_place"]
 
     def first(lo, name):
@@ -188,6 +196,18 @@ def build(data):
     for lv in levels:
         lv["body"].append(["text", "]"])
         del lv["_place"]
+    if allow_include and g.chance(30):
+        # another chain rendered through <%include>, preferably from a level that has a parent of its own; it uses the
+        # same member names as this chain and must not see this chain's self / parent / next / local
+        sub = build(bytes(data[g.pos:]) + bytes(data[:g.pos]), pfx=pfx + "s", maxn=3, allow_include=False)
+        i = g.int(0, max(n - 2, 0))
+        body = levels[i]["body"]
+        blocks = [it for it in body if it[0] == "block"]
+        if blocks and g.chance(40):
+            its = blocks[0][2]
+            its.insert(g.int(1, len(its) - 1), ["include", sub, 0])
+        else:
+            body.insert(g.int(1, len(body) - 1), ["include", sub, 0])
     return case
 
 
@@ -208,6 +228,8 @@ def emit_items(items):
             out.append('<%%block name="%s">%s</%%block>' % (it[1], emit_items(it[2])))
         elif k == "anonblock":
             out.append("\n<%block>" + emit_items(it[1]) + "</%block>\n")
+        elif k == "include":
+            out.append('<%%include file="%s"/>' % _inc_uris[id(it[1])])
         elif k == "defblock":  # negative: named block inside a def
             out.append('<%%def name="bad()"><%%block name="%s">x</%%block></%%def>' % it[1])
         elif k == "defblockwrapped":  # negative: named block inside a def, below an anonymous block
@@ -217,14 +239,51 @@ def emit_items(items):
     return "".join(out)
 
 
+_inc_uris = {}  # id(subcase) -> URI of its most derived template, for the emission in progress
+
+
+def rel_uri(uris, i):
+    import posixpath
+
+    return posixpath.relpath(uris[i + 1], posixpath.dirname(uris[i]))
+
+
+def case_uris(case, base):
+    n = len(case["levels"])
+    return ["%s/%st%d.html" % (base, case["levels"][i].get("dir", ""), i) for i in range(n)] + [base + "/none.html"]
+
+
+def sub_cases(case):
+    """-> [(subcase, m)] of the include items of this chain"""
+    out = []
+
+    def walk(items):
+        for it in items:
+            if it[0] == "include":
+                out.append((it[1], it[2]))
+            elif it[0] == "block":
+                walk(it[2])
+            elif it[0] == "anonblock":
+                walk(it[1])
+
+    for lv in case["levels"]:
+        walk(lv["body"])
+        for its in lv["defs"].values():
+            walk(its or [])
+    return out
+
+
 def emit_level(case, i, uris):
     lv = case["levels"][i]
     src = []
     inh = lv.get("inherit")
+    pfx = case.get("pfx", "")
     if inh == "static":
         src.append('<%%inherit file="%s"/>' % uris[i + 1])
-    elif inh == "dyn":
-        src.append('<%%inherit file="${context[\'dyn%d\']}"/>' % i)
+    elif inh == "rel":
+        src.append('<%%inherit file="%s"/>' % rel_uri(uris, i))
+    elif inh in ("dyn", "dynrel"):
+        src.append('<%%inherit file="${context[\'%sdyn%d\']}"/>' % (pfx, i))
     elif inh == "dynnone":
         src.append('<%inherit file="${context.get(\'dynnone\') or None}"/>')
     if lv["page"]:
@@ -307,6 +366,8 @@ class Model:
                 self.out.append("\n")
                 self.run(it[1], i)
                 self.out.append("\n")
+            elif k == "include":
+                self.out.append(Model(it[1]).render())  # a chain of its own: nothing of the includer's chain leaks in
 
     def body(self, j, x=None):
         lv = self.levels[j]
@@ -341,7 +402,10 @@ def features(case):
                     if inn in m.blocks[k] and name not in m.blocks[k]:
                         nested_override = True
     return {"n": n, "nonadj": nonadj, "nested_override": nested_override,
-            "dyn": any(lv.get("inherit") in ("dyn", "dynnone") for lv in case["levels"])}
+            "dyn": any(lv.get("inherit") in ("dyn", "dynrel", "dynnone") for lv in case["levels"]),
+            "rel": any(lv.get("inherit") in ("rel", "dynrel") and case["levels"][j].get("dir") != case["levels"][j + 1].get("dir")
+                       for j, lv in enumerate(case["levels"][:-1])),
+            "include": bool(sub_cases(case))}
 
 
 def check_case(case, ev=None):
@@ -350,23 +414,40 @@ def check_case(case, ev=None):
 
     n = len(case["levels"])
     k = next(_uri)
-    uris = ["/c06_%d_t%d.html" % (k, i) for i in range(n)] + ["/c06_%d_none.html" % k]
     lookup = TemplateLookup()
     neg = case.get("negative")
-    srcs = [emit_level(case, i, uris) for i in range(n)]
+    ctx = {"dynnone": None}
+    plan = []  # (uri, source) of every template of the chain and of the chains it includes
+
+    def lay(c, base):
+        us = case_uris(c, base)
+        for m, (sub, _) in enumerate(sub_cases(c)):
+            _inc_uris[id(sub)] = lay(sub, "%s/inc%d" % (base, m))[0]
+        lv = c["levels"]
+        for i in range(len(lv)):
+            plan.append((us[i], emit_level(c, i, us)))
+            if i >= 1:
+                # same file name in the other directories: a relative inherit resolved against the wrong template lands here
+                for dname in sorted({l.get("dir", "") for l in lv} | {""}):
+                    if dname != lv[i].get("dir", ""):
+                        plan.append(("%s/%st%d.html" % (base, dname, i), "DECOY(%s%d)" % (dname, i)))
+        for i in range(len(lv) - 1):
+            ctx["%sdyn%d" % (c.get("pfx", ""), i)] = rel_uri(us, i) if lv[i].get("inherit") == "dynrel" else us[i + 1]
+        return us
+
+    _inc_uris.clear()
+    uris = lay(case, "/c06_%d" % k)
+    srcs = [src for u, src in plan if u in uris[:n]]
     try:
-        for i in range(n):
-            lookup.put_string(uris[i], srcs[i])
+        for i, (u, src) in enumerate(plan):
+            lookup.put_string(u, src)
     except mexc.CompileException as e:
         if neg:
             if ev is not None:
                 ev.case(key=case, nontrivial=False, labels=("negative:" + neg,))
             return
-        raise Failure(case, "template %s does not compile: %s\n%s" % (uris[i], e, srcs[i]), "compile")
-    shown = "\n".join("--- %s ---\n%s" % (uris[i], srcs[i]) for i in range(n))
-    ctx = {"dynnone": None}
-    for i in range(n - 1):
-        ctx["dyn%d" % i] = uris[i + 1]
+        raise Failure(case, "template %s does not compile: %s\n%s" % (plan[i][0], e, plan[i][1]), "compile")
+    shown = "\n".join("--- %s ---\n%s" % (u, src) for u, src in plan if not src.startswith("DECOY("))
     if neg:
         try:
             lookup.get_template(uris[0]).render_unicode(**ctx)
@@ -387,7 +468,7 @@ def check_case(case, ev=None):
     if ev is not None:
         f = features(case)
         nt = (f["n"] >= 3 and f["nonadj"]) or f["nested_override"]
-        ev.case(key=case, nontrivial=nt, labels=["n:%d" % f["n"]] + [x for x in ("nonadj", "nested_override", "dyn") if f[x]])
+        ev.case(key=case, nontrivial=nt, labels=["n:%d" % f["n"]] + [x for x in ("nonadj", "nested_override", "dyn", "rel", "include") if f[x]])
         if nt and len(shown) < 1200:
             ev.sample({"templates": srcs, "expected": exp}, "chain")
 
